@@ -222,6 +222,24 @@ Definition tls_start_server (i : ts_in) : ts_out :=
           | VERIFY_PEER => inl ValueError
           end).
 
+(* ---------- net/tls.py create_proxy_server_context: which trust stores are loaded ----------
+   if ca_path is None and ca_pemfile is None: ca_pemfile = certifi.where()
+   context.load_verify_locations(ca_pemfile, ca_path)
+   The bundled default file is used only when neither option is set. *)
+Record trust_cfg := mkTc {
+  tc_file : option (list cert);     (* ssl_verify_upstream_trusted_ca: certificates in that PEM file *)
+  tc_dir : option (list cert);      (* ssl_verify_upstream_trusted_confdir: certificates in that hashed directory *)
+  tc_default : list cert            (* certificates in certifi.where() *)
+}.
+
+Definition opt_list {A} (o : option (list A)) : list A := match o with Some l => l | None => [] end.
+
+Definition loaded_trust (tc : trust_cfg) : list cert :=
+  match tc_file tc, tc_dir tc with
+  | None, None => tc_default tc
+  | f, d => opt_list f ++ opt_list d
+  end.
+
 (* What OpenSSL is asked to do with the peer chain (the contract side): with VERIFY_NONE nothing
    fails the handshake; with VERIFY_PEER the chain must verify for the configured target. *)
 Definition peer_acceptable (cf : ts_conf) (trust chain : list cert) (now : Z) : bool :=
